@@ -1,10 +1,12 @@
 #!/bin/sh
 # Runs every stored seeded change against the quick check of the property it targets (apply to /repo, check, revert)
-# (now: in a scratch worktree; /repo is untouched) and records the outcome in seeded/<id>/detect.json. Usage: tools/seeded_sweep.sh [wall_s]
+# (now: in a scratch worktree; /repo is untouched) and records the outcome in seeded/<id>/detect.json. Usage: tools/seeded_sweep.sh [wall_s] ['id id ...']
 cd /verif || exit 2
 WALL=${1:-60}
+ONLY=$2   # optional: space-separated ids to refresh
 for d in seeded/*/; do
   id=$(basename $d); prop=${id%-*}
+  if [ -n "$ONLY" ]; then case " $ONLY " in *" $id "*) ;; *) continue ;; esac; fi
   out=$(./mutcheck.sh /verif/${d}patch.diff $prop $WALL 2>&1)
   rule=$(echo "$out" | grep "^rule:" | head -1 | sed 's/^rule: //')
   rc=$(echo "$out" | grep "^exit=" | sed 's/exit=//')
